@@ -72,7 +72,8 @@ class SchedulingMixin(AbstractSchedulingLoop):
         return len(self.get_ready_queue())
 
     def queue_items(self: HasReadyQueue) -> Iterable[Handle]:
-        return self.get_ready_queue()
+        # a snapshot, since other threads may append to the queue
+        return list(self.get_ready_queue())
 
     def queue_find(
         self: HasReadyQueue, key: Callable[[Handle], bool], remove: bool = False
